@@ -94,8 +94,23 @@ func c02Scope(sp *BoolSpace, optStride uint64) *drv.Scope {
 							if a.Sign() != -b.Sign() {
 								c.Fail("reverse-orientation", sub, "%s: total signed area %v (plain) vs %v (reversed)", sub, a, b)
 							}
-							for _, p := range sol {
-								_ = p
+							// ... also in the tree form of the same execution
+							et := clipper.NewClipper64()
+							et.VerifSetOptions(pc, true)
+							et.AddPaths(S, clipper.Subject, false)
+							if C != nil {
+								et.AddPaths(C, clipper.Clip, false)
+							}
+							tree := clipper.NewPolyTree64()
+							var open clipper.PathsD
+							et.ExecutePolyTree64(ct, fr, tree, &open)
+							c.Exec(1)
+							var polys Paths
+							for _, n := range flattenTree(tree.PolyPathBase) {
+								polys = append(polys, n.poly)
+							}
+							if canonPaths(polys) != canonPaths(sol) {
+								c.Fail("reverse-tree", sub, "%s: with reverse-solution on, ExecutePolyTree64 holds %v but Execute returns %v (same engine options, same input)", sub, polys, sol)
 							}
 						} else if opt == 0 && idx%8 == 0 && ct == clipper.Union {
 							// re-uniting a solution with itself changes nothing outside the band
@@ -121,7 +136,7 @@ func init() {
 		ID:    "C02",
 		Title: "Closed solutions are a canonical, non-overlapping polygon set",
 		Rule: "the closed boolean scopes of C01 plus the unit embedding, x 16 (clip type, fill rule) x {preserveCollinear, reverseSolution} in {on,off}^2 (set through the verif hook; the non-default option settings on every optStride-th input); " +
-			"oracle per solution: every path has >= 3 vertices and no equal cyclic neighbours; total winding number (exact scan) in {0,1} ({-1,0} when reversed) at every witness > 2 units from every solution edge; reversed solution covers the same region with negated signed area; Union(solution,NonZero) is region-equal to the solution (every 8th input). non-trivial = input with a non-empty solution whose winding was examined",
+			"oracle per solution: every path has >= 3 vertices and no equal cyclic neighbours; total winding number (exact scan) in {0,1} ({-1,0} when reversed) at every witness > 2 units from every solution edge; reversed solution covers the same region with negated signed area, and the tree form of the reversed execution holds the same polygons; Union(solution,NonZero) is region-equal to the solution (every 8th input). non-trivial = input with a non-empty solution whose winding was examined",
 		Assumptions:      []string{"small-scope hypothesis as in C01", "winding outside {0,1} confined to the 2-unit band of solution edges is allowed by the statement and not reported"},
 		RequiredCounters: []string{"inputs_with_nonempty_solution", "reunion_checked", "solutions_with_several_paths"},
 		Scopes: func(tier string) []*drv.Scope {
